@@ -98,15 +98,23 @@ def lint_coq():
 
 
 class CoqLock:
+    """exclusive, re-entrant (within the process) lock around everything that touches coq/*.vo"""
+    depth = 0
+    handle = None
+
     def __enter__(self):
-        os.makedirs(SCRATCH, exist_ok=True)
-        self.f = open(os.path.join(SCRATCH, "coq.lock"), "w")
-        fcntl.flock(self.f, fcntl.LOCK_EX)
+        if CoqLock.depth == 0:
+            os.makedirs(SCRATCH, exist_ok=True)
+            CoqLock.handle = open(os.path.join(SCRATCH, "coq.lock"), "w")
+            fcntl.flock(CoqLock.handle, fcntl.LOCK_EX)
+        CoqLock.depth += 1
         return self
 
     def __exit__(self, *a):
-        fcntl.flock(self.f, fcntl.LOCK_UN)
-        self.f.close()
+        CoqLock.depth -= 1
+        if CoqLock.depth == 0:
+            fcntl.flock(CoqLock.handle, fcntl.LOCK_UN)
+            CoqLock.handle.close()
 
 
 def _run(cmd, cwd=None, timeout=1800, env=None):
@@ -131,6 +139,11 @@ MAKE_CMD = "cd %s && coq_makefile -f _CoqProject -o Makefile && timeout 1500 mak
 def coq_build():
     """Full .vo build (incremental through make).  Returns (ok, log)."""
     with CoqLock():
+        # structural facts are re-extracted from the source on every run (fail-closed translator)
+        rc, out0 = _run([sys.executable, os.path.join(VERIF, "tools", "gen_facts.py")], timeout=120,
+                        env={"VERIF_REPO": REPO})
+        if rc != 0:
+            return False, "gen_facts failed:\n" + out0
         rc, out = _run("coq_makefile -f _CoqProject -o Makefile", cwd=COQ, timeout=120)
         if rc != 0:
             return False, out
@@ -357,7 +370,9 @@ class Report:
             f.write("\n")
         for k in self.known:
             print("KNOWN-FINDING: property=%s %s" % (self.pid, k))
-        for path, found in self.violations[:5]:
+        # a broken proof / correspondence is reported through the concrete failing input when the search found one
+        shown = [v for v in self.violations if v[1]] or self.violations
+        for path, found in shown[:5]:
             print("VIOLATION property=%s replay=%s%s" % (self.pid, path, "" if found else " no-failing-input-found"))
         sys.stdout.flush()
         if self.violations:
@@ -378,6 +393,11 @@ BASE_TRUST = [
 
 def proof_phase(rep, pid):
     """Steps 1-2 shared by every check.  Returns True when all obligations are discharged."""
+    with CoqLock():
+        return _proof_phase(rep, pid)
+
+
+def _proof_phase(rep, pid):
     bad = lint_coq()
     if bad:
         rep.violation({"kind": "lint", "what": "forbidden construct in the Coq development", "where": bad[:20],
